@@ -85,6 +85,24 @@ guard = bool(re.search(r"if\s*\(master->using_merged_upsample\)\s*reinit_upsampl
 if "reinit_upsampler" not in ja:
     die("jdapistd.c: jpeg_crop_scanline no longer has the reinit_upsampler logic the model describes")
 
+# interblock smoothing under a crop (jdcoefct.c decompress_smooth_data)
+jc = rd("jdcoefct.c")
+mdef = re.search(r"\ndecompress_smooth_data\(j_decompress_ptr cinfo,[^)]*\)\s*\{", jc)
+i0 = mdef.start() if mdef else -1
+if i0 < 0:
+    die("jdcoefct.c: decompress_smooth_data not found")
+i1 = jc.find("\n}\n", i0)
+sm = jc[i0:i1]
+if not re.search(r"for\s*\(block_num\s*=\s*cinfo->master->first_MCU_col\[ci\];\s*block_num\s*<=\s*cinfo->master->last_MCU_col\[ci\];\s*block_num\+\+\)", sm):
+    die("jdcoefct.c: decompress_smooth_data no longer loops over first_MCU_col[ci]..last_MCU_col[ci]")
+if not re.search(r"buffer_ptr\s*=\s*buffer\[block_row\]\s*\+\s*cinfo->master->first_MCU_col\[ci\];", sm) or \
+   not re.search(r"DC11\s*=\s*DC12\s*=\s*DC13\s*=\s*DC14\s*=\s*DC15\s*=\s*\(int\)buffer_ptr\[0\]\[0\];", sm):
+    die("jdcoefct.c: decompress_smooth_data no longer initialises the DC window from column first_MCU_col[ci]")
+mm = re.search(r"last_block_column\s*=\s*([^;]+);", sm) or die("jdcoefct.c: last_block_column assignment not found")
+lbc_width = re.sub(r"\s+", "", mm.group(1)) == "compptr->width_in_blocks-1"
+if not re.search(r"block_num\s*<\s*last_block_column", sm) or not re.search(r"block_num\s*\+\s*1\s*<\s*last_block_column", sm):
+    die("jdcoefct.c: the right-neighbour tests against last_block_column changed")
+
 def zl(xs):
     return "[" + "; ".join(str(x) for x in xs) + "]"
 print("(* GENERATED by tools/gen_Scaling.py from src/turbojpeg.c, turbojpeg.h, jpeglib.h, jdmaster.c, jdapistd.c -- do not edit *)")
@@ -97,6 +115,8 @@ print("Definition gen_tjMCUWidth : list Z := %s." % zl(mcuw))
 print("Definition gen_tjMCUHeight : list Z := %s." % zl(mcuh))
 print("(* jpeg_crop_scanline: `if (master->using_merged_upsample) reinit_upsampler = FALSE;` present before the re-initialisation *)")
 print("Definition gen_crop_merged_guard : bool := %s." % ("true" if guard else "false"))
+print("(* jdcoefct.c decompress_smooth_data: last_block_column = compptr->width_in_blocks - 1 (independent of the crop window) *)")
+print("Definition gen_smooth_lbc_is_width : bool := %s." % ("true" if lbc_width else "false"))
 print("(* jdmaster.c chain: (threshold k of `scale_num*DCTSIZE <= scale_denom*k` (0 = final else), width multiplier, height multiplier,")
 print("   _min_DCT_h_scaled_size, _min_DCT_v_scaled_size) in source order *)")
 print("Definition gen_scale_chain : list (Z * Z * Z * Z * Z) :=\n  [%s]." % "; ".join("(%d, %d, %d, %d, %d)" % b for b in branches))
